@@ -110,3 +110,19 @@ Proof.
   repeat match goal with |- _ /\ _ => split end;
     try (vm_compute; reflexivity); try (vm_compute; discriminate).
 Qed.
+
+(* ---------------------------------------------------------------------------------------------------------------
+   Tie to the source.  The functions *_g below are generated from /repo on every run by harness/cmd/gotrans
+   (gen/Trans*.v); the theorems say that, for ALL inputs, they compute what the hand-written model functions used in
+   the statements above compute (res_sim: the same value, or both an error, or both a panic), under the premises Go's
+   types provide.  A change to one of these Go functions that alters its behaviour makes the proof below fail. *)
+From GB Require Import Model.Header Model.Events Model.Rbr Model.Cell Base.GoSem Proofs.TransTactics Proofs.TransEquivCell Proofs.TransEquivMeta Proofs.TransEquivBitmap Proofs.TransEquivHeader Proofs.TransEquivEvents Proofs.TransEquivRbr.
+From GBGen Require Import TransCell TransMeta TransBitmap TransHeader TransEvents TransRbr.
+Open Scope Z_scope.
+
+Theorem C13_tie_cellLength : forall d pos typ meta,
+  wf_bytes d -> 0 <= typ < 256 -> 0 <= meta < 65536 -> Z.of_nat pos < 2 ^ 62 ->
+  res_sim (cellLength_g d (Z.of_nat pos) typ meta) (cell_length d pos typ meta).
+Proof. exact cellLength_equiv. Qed.
+Print Assumptions C13_tie_cellLength.
+
